@@ -227,6 +227,68 @@ def clause_b(repo, chk):
     chk.require_count("B-chains", 5)
 
 
+def check_selection_map(repo, chk, fn):
+    """finite-domain interpretation of set_used_res (with the real set_used_chains / add_used_chains / get_res_map inlined)
+    on small worlds of chains: the code only tests membership and equality of particle names, so its behaviour on a
+    world is determined by the incidence relation chain x resonance; all subsets of three resonances are enumerated"""
+    import itertools
+
+    from ..sym import PySet, Raised, SelfObj, Translator, Unmodelled
+
+    chk.rule("C-selmap", "set_used_res(res, only) activates exactly the chains {j : inner_j meets res} (only=False) resp. {j : inner_j avoids every resonance not in res} (only=True), plus the chain indices given explicitly, without duplicates - interpreted on every subset of the resonances of small worlds in which a resonance occurs in several chains")
+    cls = repo.cls("%s::DecayGroup" % CORE)
+
+    def isinst(tr, args, kwargs, n):
+        v, t = args[0], n.args[1]
+        names = [norm_text(e) for e in (t.elts if isinstance(t, ast.Tuple) else [t])]
+        if isinstance(v, PySet):
+            return "set" in names
+        if getattr(v, "is_Integer", False):
+            v = int(v)
+        table = {"str": str, "int": int, "list": list, "tuple": tuple}
+        return isinstance(v, tuple(table[x] for x in names if x in table)) if any(x in table for x in names) else False
+
+    hooks = {"builtin.isinstance": isinst, "tf_pwa/particle.py::BaseParticle": lambda tr, args, kwargs, n: args[0], "allow_raise": True, "allow_attr_store": True}
+    worlds = [
+        [["a", "b"], ["a"], ["c"], ["b", "c"], []],  # a, b, c each in two chains; one chain without resonance
+        [["a"], ["b"], ["c"]],  # one resonance per chain
+        [["a", "b", "c"], ["a", "b"], ["a"]],  # nested cascades
+    ]
+    n_cases, bad = 0, []
+    for inners in worlds:
+        names = sorted({x for i in inners for x in i})
+        for r in range(len(names) + 1):
+            for R in itertools.combinations(names, r):
+                for only in (False, True):
+                    for extra in ([], [len(inners) - 1]):
+                        for scalar in ((False, True) if len(R) == 1 and not extra else (False,)):
+                            tr = Translator(repo, hooks=hooks, max_depth=6)
+                            so = SelfObj(cls, {"chains": [SelfObj(None, {"inner": list(i)}) for i in inners], "resonances": list(names), "chains_idx": list(range(len(inners)))})
+                            arg = R[0] if scalar else list(R) + list(extra)
+                            try:
+                                tr.call_fn(fn, [arg, only], self_obj=so)
+                            except Raised as e:
+                                bad.append("world %s res=%s only=%s: raises %s" % (inners, arg, only, e))
+                                n_cases += 1
+                                continue
+                            except Unmodelled as e:
+                                raise AnalysisError("set_used_res is not interpretable on the finite worlds: %s" % e)
+                            got = [int(x) for x in so.attrs["chains_idx"]]
+                            if only:
+                                want = {j for j, i in enumerate(inners) if not (set(i) - set(R))}
+                            else:
+                                want = {j for j, i in enumerate(inners) if set(i) & set(R)}
+                            want |= set(extra)
+                            n_cases += 1
+                            if set(got) != want or len(got) != len(set(got)):
+                                bad.append("chains %s, res=%s, only=%s: active chains %s, expected %s" % (inners, arg, only, got, sorted(want)))
+    chk.oblige("C-selmap", "set_used_res interpreted on %d (world, resonance subset, only, explicit index) cases: %d deviations" % (n_cases, len(bad)), not bad)
+    if bad:
+        chk.violation("C-selmap", fn.key, "selection-map", "selecting resonances does not activate the corresponding chains in %d of %d cases; first: %s" % (len(bad), n_cases, bad[0]), file=CORE, line=fn.lineno)
+    if n_cases < 60:
+        raise AnalysisError("C-selmap: only %d cases interpreted" % n_cases)
+
+
 def clause_c(repo, chk):
     """selection by resonance name visits every chain; fit-fraction accumulators are reset per integral"""
     chk.rule("C-select", "DecayGroup.set_used_res visits every chain when it maps resonance names to chains (no break/continue/return in the loops over self.chains / the resonance map)")
@@ -249,7 +311,8 @@ def clause_c(repo, chk):
             if own:
                 chk.violation("C-select", fn.key, "loop:%s" % it, "the loop over `%s` is left early (%s at line %d): a resonance that occurs in several chains selects only the first" % (it, type(own[0]).__name__.lower(), own[0].lineno), file=CORE, line=own[0].lineno)
     if n_chain_loops < 2:
-        raise AnalysisError("set_used_res: loops over self.chains / res_map not found")
+        chk.info("C-select: set_used_res no longer written as loops over self.chains / res_map; decided by C-selmap alone")
+    check_selection_map(repo, chk, fn)
     # accumulators
     cls = repo.cls("%s::FitFractions" % FF)
     app, ini, integ = cls.methods.get("append_int"), cls.methods.get("init_res_table"), cls.methods.get("integral")
